@@ -1,0 +1,10 @@
+//go:build verif
+
+package io
+
+// LogError writes one diagnostic line to os.Stderr (same shape as PrintMessage: runtime.Caller, strings.Split with a
+// non-empty separator returns >= 1 element, fmt.Fprintf). No repository state is touched.
+//@ func LogError
+//@   props C15
+//@   trusted diagnostic output to os.Stderr only (runtime.Caller, strings.Split with a non-empty separator returns >= 1 element, fmt.Fprintf); touches no program state
+//@   modifies nothing
